@@ -373,4 +373,22 @@ PROPS = {
             {"name": "splits", "test": "TestGlobalSplits", "kind": "plain", "shards": {Q: 8, T: 8}, "timeout": {Q: 300, T: 300}},
         ],
     },
+    "C16": {
+        "pkg": "c16", "bin": True,
+        "technique": "grammar-based generation of abstract configurations serialised by three independent emitters; differential "
+                     "oracle across YAML / JSON / TOML at the binary level",
+        "level_text": "Abstract configurations covering the documented keys of tasks, stages, contexts and watchers (string-or-list "
+                      "fields in both forms, durations as strings and integers, booleans, numeric scalars in string positions, nested "
+                      "maps, an imported second file of the same format) are written as YAML, JSON and TOML; load verdict, `list`, "
+                      "`show` of every task, `graph` of every pipeline and running every task and pipeline with --raw (exit status, "
+                      "command output, per-stage summary lines with durations and colours removed, sorted) must agree pairwise.",
+        "level_note": "Numeric scalars are integers |n| < 2^53 and short decimals (JSON numbers are doubles by definition); contexts with "
+                      "`executable` are not generated; every YAML string is double-quoted so YAML 1.1 implicit typing cannot change content.",
+        "rule": "rapid cases; non-trivial = at least one pipeline with >= 2 stages and (a scalar-form list field, or a duration, or an "
+                "import); distinct = canonical JSON of the three texts.",
+        "assumptions": ["the three emitters of harness/gen are correct serialisations of the same tree (trusted base of this check)"],
+        "parts": [
+            {"name": "formats", "test": "TestFormats", "checks": {Q: 480, T: 8000}, "shards": {Q: 16, T: 16}, "timeout": {Q: 500, T: 3000}, "shrinktime": "60s"},
+        ],
+    },
 }
